@@ -124,3 +124,50 @@ Proof.
   destruct (nodupb (internal_names u)) eqn:Ei; simpl; [|reflexivity].
   apply nodupb_NoDup in El, Ei. destruct H; contradiction.
 Qed.
+
+(* ---------- the common ancestor of a set of genomes ---------- *)
+Definition anc_of (a q : taxon) : Prop := exists s, q = s ++ a.
+
+Lemma lcp_common_prefix' r a b : lcp (r ++ a) (r ++ b) = r ++ lcp a b.
+Proof. induction r as [|x r IH]; simpl; [reflexivity|]. now rewrite Nat.eqb_refl, IH. Qed.
+
+Lemma lcs_common a s1 s2 : anc_of a (lcs (s1 ++ a) (s2 ++ a)).
+Proof. unfold lcs. rewrite !rev_app_distr, lcp_common_prefix', rev_app_distr, rev_involutive. eexists. reflexivity. Qed.
+
+Lemma fold_lcs_common a r : forall x, anc_of a x -> Forall (anc_of a) r -> anc_of a (fold_left lcs r x).
+Proof.
+  induction r as [|y r IH]; intros x Hx Hr; simpl; [exact Hx|]. inversion Hr as [|? ? Hy Hr']; subst.
+  apply IH; [|exact Hr']. destruct Hx as [s1 ->], Hy as [s2 ->]. apply lcs_common.
+Qed.
+
+Lemma anc_of_trans a b c : anc_of a b -> anc_of b c -> anc_of a c.
+Proof. intros [s ->] [s' ->]. exists (s' ++ s). now rewrite app_assoc. Qed.
+
+Lemma fold_lcs_is_anc r : forall x e, In e (x :: r) -> anc_of (fold_left lcs r x) e.
+Proof.
+  induction r as [|y r IH]; intros x e Hin; simpl.
+  - destruct Hin as [<-|[]]. exists []. reflexivity.
+  - destruct Hin as [<-|[<-|Hin]].
+    + eapply anc_of_trans; [apply (IH (lcs x y) (lcs x y)); left; reflexivity|]. apply lcs_is_suffix_l.
+    + eapply anc_of_trans; [apply (IH (lcs x y) (lcs x y)); left; reflexivity|]. rewrite lcs_comm. apply lcs_is_suffix_l.
+    + apply IH. right. exact Hin.
+Qed.
+
+(* the genome returned for a set of at least two genomes sits at the most recent common ancestor of all of them:
+   an ancestor of every member, below every other common ancestor; it is an internal node that carries a genome *)
+Theorem mrca_set_spec t st x y r m :
+  get_mrca_genome_set t st (x :: y :: r) = Ok m ->
+  (forall g, In g (x :: y :: r) -> anc_of m g) /\
+  (forall a, (forall g, In g (x :: y :: r) -> anc_of a g) -> anc_of a m) /\
+  In m (s_genomes st) /\ is_leaf t m = false.
+Proof.
+  unfold get_mrca_genome_set, get_ancestral_genome_by_taxon.
+  destruct (mem_tax (fold_left lcs (y :: r) x) (s_genomes st) && negb (is_leaf t (fold_left lcs (y :: r) x))) eqn:E; [|discriminate].
+  intros H. inversion H; subst m. clear H. apply andb_true_iff in E as [E1 E2].
+  split; [intros g Hg; exact (fold_lcs_is_anc (y :: r) x g Hg)|]. split.
+  - intros a Ha. apply (fold_lcs_common a (y :: r) x); [apply Ha; left; reflexivity|]. apply Forall_forall. intros g Hg. apply Ha. right. exact Hg.
+  - split; [|apply negb_true_iff; exact E2]. unfold mem_tax in E1. apply existsb_exists in E1 as (q & Hq & Eq). apply taxon_eqb_eq in Eq. now subst.
+Qed.
+
+Theorem mrca_set_too_small t st gs : List.length gs < 2 -> get_mrca_genome_set t st gs = Err ValueError.
+Proof. destruct gs as [|x [|y r]]; simpl; intros H; try reflexivity; lia. Qed.
